@@ -507,3 +507,88 @@ Example C14_witness_multi_repeat :
   run_default nat_gen (KRep [1; 2]) (n_concat false) (c_take_while (fun v => v <? 2) true) 30 = Returned 2 2 true /\
   run_default nat_gen (KRep [1; 2]) n_take_until c_all 30 = Returned 0 0 true.
 Proof. vm_compute. repeat split; reflexivity. Qed.
+
+(* ==== repeat / repeat_value in front of flat_map(of) and switch_map(of), behind concat(of(1,2), .),
+   for ANY consumer (proofs: Ops/SyncRepNested.v).  The inner list loop of repeat is ONE
+   trampoline action: a whole round of the list is pulled -- every element subscribing its inner
+   of(x), whose action is only queued -- before the inner actions run. ==== *)
+From RxVerif Require Import Ops.SyncRepNested.
+
+(* source.flat_map(lambda x: of(x)): the consumer sees the cyclic stream; if it completes at its
+   (n * r + j + 1)-th element (n = |v :: l|, j < n), the run returns and EXACTLY n * (r + 1)
+   elements have been pulled: r + 1 whole rounds *)
+Theorem C14_flat_map_of_rep_rounds : forall gen C v l r j fuel, (j < length (v :: l))%nat ->
+  stops_at C (fun i => nth (i mod length (v :: l)) (v :: l) v) (c_init C) 0 (length (v :: l) * r + S j) ->
+  ((3 * length (v :: l) + 2) * r + 2 * length (v :: l) + 2 * j + 5 <= fuel)%nat ->
+  exists out, run_default gen (KRep (v :: l)) n_flat_map_of C fuel = Returned (length (v :: l) * S r) out true.
+Proof. exact flat_map_of_rep_rounds. Qed.
+Print Assumptions C14_flat_map_of_rep_rounds.
+
+(* the same in terms of k alone: n * ceil(k / n) pulls *)
+Theorem C14_flat_map_of_rep : forall gen C v l k fuel,
+  stops_at C (fun i => nth (i mod length (v :: l)) (v :: l) v) (c_init C) 0 k ->
+  (5 * k + 2 * length (v :: l) + 5 <= fuel)%nat ->
+  exists out, run_default gen (KRep (v :: l)) n_flat_map_of C fuel
+              = Returned (length (v :: l) * ((k + length l) / length (v :: l))) out true.
+Proof. exact flat_map_of_rep_any. Qed.
+Print Assumptions C14_flat_map_of_rep.
+
+(* source.switch_map(lambda x: of(x)): every inner but the last of a round is disposed before its
+   queued action runs, so the consumer sees the LAST element of the list once per round; if it
+   completes at the k-th element of that constant stream the run returns after exactly n * k pulls *)
+Theorem C14_switch_map_of_rep : forall gen C v l k fuel,
+  stops_at C (fun _ => last (v :: l) v) (c_init C) 0 k -> ((2 * length (v :: l) + 3) * k + 2 <= fuel)%nat ->
+  exists out, run_default gen (KRep (v :: l)) n_switch_map_of C fuel = Returned (length (v :: l) * k) out true.
+Proof. exact switch_map_of_rep_last. Qed.
+Print Assumptions C14_switch_map_of_rep.
+
+(* ... and if it never completes on that constant stream the run never returns, whatever the fuel *)
+Theorem C14_switch_map_of_rep_diverges : forall gen C v l fuel,
+  never_stops C (fun _ => last (v :: l) v) (c_init C) 0 ->
+  run_default gen (KRep (v :: l)) n_switch_map_of C fuel = OutOfFuel.
+Proof. exact switch_map_of_rep_diverges. Qed.
+Print Assumptions C14_switch_map_of_rep_diverges.
+
+(* hence the proposal "a consumer that completes on the CYCLIC stream makes switch_map(of) over
+   repeat return" is false: take_while(1 < v) completes at the first element of 1, 2, 1, 2, ...
+   but sees 2, 2, 2, ... behind switch_map(of) *)
+Theorem C14_switch_map_of_rep_cyclic_refuted :
+  stops_at (c_take_while (fun v => 1 <? v) false) (fun i => nth (i mod length [1; 2]) [1; 2] 1) tt 0 1
+  /\ run_default (fun i => Z.of_nat i) (KRep [1; 2]) n_switch_map_of (c_take_while (fun v => 1 <? v) false) 500 = OutOfFuel
+  /\ forall gen fuel, run_default gen (KRep [1; 2]) n_switch_map_of (c_take_while (fun v => 1 <? v) false) fuel = OutOfFuel.
+Proof. exact switch_map_of_rep_cyclic_refuted. Qed.
+Print Assumptions C14_switch_map_of_rep_cyclic_refuted.
+
+(* concat(of(1, 2), source): the consumer sees 1, 2, then the cyclic stream; completing at its k-th
+   element the run returns after exactly k - 2 pulls (none if k <= 2) *)
+Theorem C14_concat_before_rep : forall gen C v l k fuel,
+  stops_at C (fun i => match i with
+                       | O => 1 | S O => 2
+                       | S (S j) => nth (j mod length (v :: l)) (v :: l) v
+                       end) (c_init C) 0 k ->
+  (3 * k + 12 <= fuel)%nat ->
+  exists out, run_default gen (KRep (v :: l)) (n_concat true) C fuel = Returned (k - 2) out true.
+Proof. exact concat_before_rep_any. Qed.
+Print Assumptions C14_concat_before_rep.
+
+(* ---- the hypotheses are satisfiable; the numbers (the implementation shows the same) ---- *)
+Example C14_witness_flat_map_repeat :
+  stops_at (c_take 4) (cyc 1 [2; 3]) 4%nat 0 (3 * 1 + 1) /\
+  run_default nat_gen (KRep [1; 2; 3]) n_flat_map_of (c_take 4) 21 = Returned 6 4 true /\
+  run_default nat_gen (KRep [1; 2; 3]) n_flat_map_of (c_take 1) 30 = Returned 3 1 true /\
+  run_default nat_gen (KRep [7]) n_flat_map_of (c_take 3) 30 = Returned 3 3 true.
+Proof. vm_compute. repeat split; reflexivity. Qed.
+
+Example C14_witness_switch_map_repeat_last :
+  stops_at (c_take 2) (fun _ => last [1; 2; 3] 1) 2%nat 0 2 /\
+  run_default nat_gen (KRep [1; 2; 3]) n_switch_map_of (c_take 2) 30 = Returned 6 2 true /\
+  stops_at (c_take_while (fun v => v <? 3) false) (fun _ => last [1; 2; 3] 1) tt 0 1 /\
+  run_default nat_gen (KRep [1; 2; 3]) n_switch_map_of (c_take_while (fun v => v <? 3) false) 30 = Returned 3 0 true.
+Proof. vm_compute. repeat split; reflexivity. Qed.
+
+Example C14_witness_concat_before_repeat :
+  stops_at (c_take 7) (concat_stream 1 [2; 3]) 7%nat 0 7 /\
+  run_default nat_gen (KRep [1; 2; 3]) (n_concat true) (c_take 7) 40 = Returned 5 7 true /\
+  run_default nat_gen (KRep [1; 2; 3]) (n_concat true) (c_take 2) 40 = Returned 0 2 true /\
+  run_default nat_gen (KRep [1; 2; 3]) (n_concat true) (c_take 3) 40 = Returned 1 3 true.
+Proof. vm_compute. repeat split; reflexivity. Qed.
